@@ -140,6 +140,16 @@ def run_case(seed, tier, rec, st):
         # shape codec for the bare inner type too (not for TOML: table at top level)
         shape = None
         if fname != "toml":
+            # history: codecs for the SAME members in the opposite declaration order were built first (typing compares
+            # unions as sets; every codec object must keep its own order)
+            rev = reverse_unions(inner)
+            if rev != inner:
+                try:
+                    rt = common.eval_type(fam, rev)
+                    F["E"](rt), F["D"](rt)
+                    rec.count("history_codecs_for_reordered_unions")
+                except Exception:
+                    pass
             try:
                 it = common.eval_type(fam, inner)
                 shape = (F["E"](it), F["D"](it))
@@ -326,3 +336,19 @@ def tagged(v, F):
         else:
             out[f.name] = x.isoformat()
     return out
+
+
+def reverse_unions(t):
+    """the same type with the members of every union in reverse declaration order."""
+    k = t[0]
+    if k == "union":
+        return ("union", tuple(reverse_unions(m) for m in reversed(t[1]))) + tuple(t[2:])
+    if k in ("seq", "counter", "vtuple"):
+        return (k, t[1], reverse_unions(t[2])) + tuple(t[3:])
+    if k in ("map", "chainmap"):
+        return (k, t[1], t[2], reverse_unions(t[3]))
+    if k == "tuple":
+        return (k, t[1], tuple(reverse_unions(m) for m in t[2]))
+    if k == "opt":
+        return (k, reverse_unions(t[1])) + tuple(t[2:])
+    return t
